@@ -10,6 +10,10 @@ A_NOTE = ("Trusted: std::sync::mpsc and the 30-line native transport (the simula
           "hash-iteration order pinned by the hooks; scenario templates over a stated grid.")
 
 CHECKS = {
+    "C06": dict(engine="sim", category="model_checking", design="4, 7/C06",
+                technique="stateless model checking of the real runtime with heap-accounting invariants after every worker action, down to one instruction per time slice",
+                text="Binary-churn scenarios under every schedule within the deviation bound and every quantum in {1,2,3,1000}: after every worker action the refcount<=>reachability invariant, freed/free-list consistency, and at quiescence no unreachable unreclaimed slot; result bytes equal host-computed bytes; the repository's own debug assertions are live.",
+                note=A_NOTE),
     "C03": dict(engine="sim", category="model_checking", design="4, 7/C03",
                 technique="stateless model checking of the real runtime: deviation-bounded exhaustive schedule enumeration (+ explicit-state search in thorough) under a controlled scheduler",
                 text="Every schedule with <= d deviations from the default (d=2 quick, 3 thorough) of the real Environment/Worker/Executor, for every confluent scenario x worker count x quantum, plus unbounded explicit-state search on the small configurations in the thorough tier; each run is an implementation trace. Right level: the property quantifies over schedules and configurations, which only exhaustive enumeration under an owned scheduler decides.",
